@@ -647,9 +647,7 @@ impl<
         match self {
             Self::Spilled(spilled, snapshot) => {
                 // First drain from half_constructed
-                if let Some(item) = spilled.half_constructed.next() {
-                    let item = item;
-
+                for item in spilled.half_constructed.by_ref() {
                     if snapshot.removed.contains(&item).not() {
                         return Some(item);
                     }
